@@ -147,6 +147,16 @@ def gen_program(seed, i):
         prog['routines'].append(mk(nid + 2, [['send', 0.2, (nid + 2) * 1000]]))
         if rng.random() < 0.5:
             prog['routines'].append(mk(nid + 3, [['stop', nid + 2]]))
+    if fam in (1, 2) and g.single_clock == 0 and rng.random() < 0.4:
+        # a child started on the bar grid (play with quant 4) asks for the next
+        # bar at once: it IS on a bar line in logical time, whatever the
+        # physical lateness of its wake-up
+        nid = max([g.next_id] + [R['id'] + 10 for R in prog['routines']]) + 50
+        child = {'id': nid + 1, 'clock': 0, 'free': True, 'seed': None, 'quant': 4,
+                 'body': [['nextbar'], ['y', 1 / 1024], ['nextbar'], ['send', 0, (nid + 1) * 1000]]}
+        prog['routines'].append({'id': nid, 'clock': 0, 'free': True, 'seed': None,
+                                 'body': [['y', rng.choice([1 / 1024, 5 / 1024])],
+                                          ['nextbar'], ['play', child]]})
     prog['family'] = ['multi-clock', 'single-clock-tempo-cond', 'single-clock-pause-resume'][fam]
     return prog
 
@@ -168,6 +178,8 @@ def normalize(run):
             per.setdefault(e[1], []).append([k, e[2], e[-1]])
         elif k in ('pause', 'resume', 'stop'):
             per.setdefault(e[1], []).append([k, e[2], e[3], e[4]])
+        elif k == 'nextbar':
+            per.setdefault(e[1], []).append(['nextbar', e[2], e[3]])
         elif k in ('yinf', 'resumed-after-inf'):
             per.setdefault(e[1], []).append([k] + list(e[2:]))
         elif k in ('end', 'exc'):
